@@ -35,6 +35,7 @@ package state
 //@   requires s != nil && s.tasks != nil
 //@   ensures s.lastTaskId == old(s.lastTaskId) + 1
 //@   ensures result != nil && result.id == strconv.Itoa(s.lastTaskId) && s.tasks[result.id] == result
+//@   ensures result.state == s
 //@   ensures forall k string :: k != result.id ==> s.tasks[k] == old(s.tasks[k]) && has(s.tasks, k) == old(has(s.tasks, k))
 //@   ensures s.lastChangeId == old(s.lastChangeId) && s.lastLaneId == old(s.lastLaneId) && s.lastNoticeId == old(s.lastNoticeId)
 
